@@ -53,7 +53,7 @@ def gen_real(rng, i, tier):
         kind = rng.choice([1, 2, 3, 4, 4, 5, 6])
         j = rng.randint(0, 60)
         arg = rng.choice([0, 1, 2, 5, 17]) if kind == 3 else rng.randint(0, 4000)
-        lines.append("fault %d %d %d" % (kind, j, arg))
+        lines.append("fault %d %d %d %d" % (kind, j, arg, rng.choice([0, 0, 1, 3, 7, 20, 50])))
     return lines
 
 
@@ -150,6 +150,19 @@ def run(chk):
                 j, last = int(f["j"]), int(f["lastbad"])
                 hist[f["kind"]] = hist.get(f["kind"], 0) + 1
                 changed = [] if f["changed"] == "-" else [int(x) for x in f["changed"].split(",")]
+                vis, npk = int(f.get("vis", "0")), int(f["packets"])
+                if vis > 0:
+                    # granule positions only where a page would end: two packets are then decided by position knowledge, not by audio state
+                    # (DESIGN 14.5): the first packet that carries a position at all applies the start-of-stream trim, and the last packet
+                    # can only be trimmed to the stream's end if the position was known or re-acquired before it
+                    exc = set()
+                    first_vis = min(vis - 1, npk - 1)
+                    if j <= first_vis:
+                        exc.add(first_vis)
+                    if not any(k % vis == vis - 1 for k in range(j + 1, npk - 1)):
+                        exc.add(npk - 1)
+                    changed = [c for c in changed if c not in exc or c <= j + 1]
+                    last = max(changed) if changed else -1
                 if any(c < j for c in changed):
                     ofail.append((r, "before: disturbing packet %d (kind %s, %s) changed the output of earlier packet(s) %s" % (j, f["kind"], variant, [c for c in changed if c < j][:4])))
                 elif last > j + 1:
@@ -158,7 +171,7 @@ def run(chk):
     chk.coverage["rule"] = ("(1) direct mode: vorbis_synthesis_blockin on marker blocks (every sample encodes its packet and index) over 14 configurations, half-rate on/off, random window "
                             "flags and restarts; every returned sample is recomputed from the Lean model's provenance cell and the library's own window table with exact single-precision "
                             "arithmetic and compared bit for bit. (2) real streams decoded with one packet dropped / duplicated / truncated / bit-flipped / decoding restarted (with and "
-                            "without a fresh vorbis_block), ASan build and plain build under heap perturbation: outputs of packets before j and from j+2 on must be bit-identical. "
+                            "without a fresh vorbis_block), granule positions on every packet or only on every 3rd/7th/20th/50th as after Ogg paging, ASan build and plain build under heap perturbation: outputs of packets before j and from j+2 on must be bit-identical. "
                             "distinct = distinct configurations x flag sequences / fault lists")
     chk.coverage["cells_compared_bit_exact"] = cells_checked
     chk.coverage["faults_injected"] = nfaults
